@@ -18,7 +18,7 @@ from . import c03_source
 
 PID = "C03"
 TITLE = "Volume connectivity answers agree with the cell list"
-LEAN_MODULES = ["Mouette.Props.C03", "Mouette.Props.C03Source", "Mouette.Props.C03Boundary", "Mouette.Props.C03Order", "Mouette.Props.C03Walk", "Mouette.Props.C03Manifold"]
+LEAN_MODULES = ["Mouette.Props.C03", "Mouette.Props.C03Source", "Mouette.Props.C03Boundary", "Mouette.Props.C03Order", "Mouette.Props.C03Walk", "Mouette.Props.C03Manifold", "Mouette.Props.C03Link", "Mouette.Props.C03Small"]
 REQUIRED_THEOREMS = [
     # translated tables
     "adjTable_eq_model", "subFace_eq_model", "adjTable_row_omits_index", "adjTable_agrees_with_slices",
@@ -69,6 +69,11 @@ REQUIRED_THEOREMS = [
     "faceCover_spec", "mem_e2f_of_hasEdge", "boundaryEdgeManifold_of_faceCover", "boundary_closed_exactly_two_of_faceCover",
     "manifold_of_allFaceCover",
     "edge_to_cell_face_bridge",
+    # round 7: the edge-umbrella hypothesis from a walk-free predicate (cells around the edge connected through the faces around it)
+    "face_through_edge", "otherFaceSide_back", "walk_closed", "reach_of_closure", "eface_of_mem_e2f",
+    "edgeUmbrella_of_linkConnected", "edge_to_cell_order_of_linkConnected",
+    # round 7: single-return bodies
+    "cell_to_vertex_bridge", "n_F2C_bridge", "id_lists_bridge", "is_cell_tet_bridge", "is_tetrahedral_bridge",
 ]
 
 TRUSTED = [
@@ -365,6 +370,9 @@ def _observe_vol(case):
     I = (lambda i: np.int64(i)) if case.get("npargs") else (lambda i: i)
     obs["OFS"] = [[_norm(_call(lambda k=k, f=f: c.other_face_side(I(k), I(f)))) for f in (obs["C2F"][k] if isinstance(obs["C2F"][k], list) else [])]
                   for k in range(nC)]
+    obs["NF2C"] = [_norm(_call(c.n_F2C, I(f))) for f in range(nF)]
+    obs["C2V"] = [_norm(_call(c.cell_to_vertex, I(k))) for k in range(nC)]
+    obs["ISTET"] = [_norm(_call(lambda k=k: bool(m.is_cell_tet(I(k))))) for k in range(nC)] + [_norm(_call(lambda: bool(m.is_tetrahedral())))]
     obs["CF"] = [_norm(_call(c.common_face, I(a), I(b))) for a, b in case["pairs"]]
     obs["ICF"] = [_norm(_call(c.in_cell_face_index, I(a), I(min(b, nF - 1)))) for a, b in case["cf"]]
     obs["ICI"] = [_norm(_call(c.in_cell_index, I(a), I(b))) for a, b in case["cv"]]
@@ -869,6 +877,15 @@ def _oracle_vol(case, obs):
             cs = fc[tuple(sorted(C[c][:i] + C[c][i + 1:]))]
             want.append(None if len(cs) != 2 else (cs[0] if cs[1] == c else cs[1]))
         if not chk("ofs", c, obs["OFS"][c], want, "other_face_side"): break
+    # round 7: n_F2C, cell_to_vertex, is_cell_tet / is_tetrahedral against the cell list itself
+    for f in range(nF):
+        if not chk("n_f2c", f, obs["NF2C"][f], len(fc[fkey[f]]), "n_F2C (number of cells of a face)"): break
+    for c in range(nC):
+        if not chk("c2v", c, obs["C2V"][c], list(C[c]), "cell_to_vertex"): break
+    if obs["ISTET"] != [len(k) == 4 for k in C] + [all(len(k) == 4 for k in C)]:
+        errs = [g for g in obs["ISTET"] if _is_err(g)]
+        out.append(_F("C03/raises/is_tet/" + errs[0] if errs else "C03/is_tet", "is_cell_tet / is_tetrahedral disagree with the number of vertices of the cells",
+                      f"{obs['ISTET'][:6]}"))
     for (a, b), got in zip(case["pairs"], obs["CF"]):
         common = set(C[a]) & set(C[b])
         want = fid[tuple(sorted(common))] if len(common) == 3 else None
@@ -1121,15 +1138,19 @@ def search_on_break(rng, broken, mismatches):
 def _source_map():
     V, B, D = "mouette/mesh/datatypes/volume.py::", "mouette/processing/border.py::", "mouette/mesh/mesh_data.py::RawMeshData."
     m = {}
-    for q in c03_source.TRANSLATED + c03_source.TRANSLATED_R5 + c03_source.TRANSLATED_R6: m[V + q] = "translated"
+    for q in c03_source.TRANSLATED + c03_source.TRANSLATED_R5 + c03_source.TRANSLATED_R6 + c03_source.TRANSLATED_R7: m[V + q] = "translated"
     for q in c03_source.TRANSLATED_R5_BORDER: m[B + q] = "translated"
     # whole body = the events of the guard table (super().__init__/clear + `self._x = None` stores); theorems
     # volumeGuards_init_covers_caches / volumeGuards_clear_restores_fresh speak about the extracted table
     m[V + "VolumeMesh._Connectivity.__init__"] = "translated"
     m[V + "VolumeMesh._Connectivity.clear"] = "translated"
+    # same standard for the mesh-level table (meshGuards): `VolumeMesh.__init__` is the base constructor call + attribute stores, all of
+    # them events of the extracted table (meshGuards_init_covers_attrs); `enable_boundary_connectivity` is one store (a `write` event)
+    m[V + "VolumeMesh.__init__"] = "translated"
+    m[V + "VolumeMesh.enable_boundary_connectivity"] = "translated"
     C = V + "VolumeMesh._Connectivity."
-    for q, note in (("n_F2C", "guard table only (len of face_to_cells)"), ("common_face", "Mesh.commonFace"),
-                    ("cell_to_vertex", "Mesh.cell"), ("in_cell_index", "Mesh.inCellIndex"), ("in_cell_face_index", "Mesh.inCellFaceIndex"),
+    for q, note in (("common_face", "Mesh.commonFace"),
+                    ("in_cell_index", "Mesh.inCellIndex"), ("in_cell_face_index", "Mesh.inCellFaceIndex"),
                     ("cell_to_edge", "Mesh.cellToEdge")):
         m[C + q] = "modelled: " + note
     M = V + "VolumeMesh."
@@ -1194,7 +1215,11 @@ MANIFEST = {
                    "fuel argument, the resets, the two sort(key=..) calls) and the accessors edge_to_face / edge_to_cell are compiled (Generated/C03W.lean) and "
                    "proved equal to the model's walk / sortEdge / edgeToCellFace, so faceOrder / edgeUmbrella now speak about what the source computes; "
                    "faceCover on every stored edge (volume side, decidable) implies edge-manifoldness of the extracted surface, hence 'every side of every "
-                   "boundary triangle lies in exactly two boundary triangles' without any surface-side hypothesis."),
+                   "boundary triangle lies in exactly two boundary triangles' without any surface-side hypothesis. "
+                   "Round 7: the cover half of the edge-umbrella hypothesis is derived from a walk-free decidable predicate (linkConnected: the cells around "
+                   "the edge are connected through the faces around it; a tetrahedron has exactly two faces through an edge and a walk leaves each cell through "
+                   "the one it did not enter by); what remains walk-defined is only that the two walks return. cell_to_vertex, n_F2C, id_*, is_cell_tet, "
+                   "is_tetrahedral compiled and bridged; n_F2C / cell_to_vertex / is_cell_tet now also compared with the cell list by the oracle."),
     "level_note": ("Trusted: Lean kernel + propext/Classical.choice/Quot.sound; the hand-written model (checked against the code on the meshes "
                    "of each run only); the ast translator; prepared face/edge containers as checked hypotheses (C02). Proved under explicit walk hypotheses: "
                    "rotational order of edge_to_cell / edge_to_face (the edge-umbrella hypothesis - the two walks reach every cell / face "
